@@ -18,4 +18,4 @@ cat > "$D/meta.json" <<M
  "ran": "tools/run_seeded.py $ID (scratch copy of /repo/stackscope + patch; repository tests; demo with and without; ./check $PROP --repo <scratch>); outcome in seeded/results.json"
 }
 M
-git -C /repo worktree remove --force "$WT" && echo "removed $WT"
+git -C /repo worktree remove --force "$WT" && git -C /repo worktree prune && echo "removed $WT"
